@@ -18,6 +18,7 @@ EXPLANATION = (
     "the valid range through; (GLOBAL-LEAK) accidental global writes inside library "
     "functions are reported as information."
     ' (CALLBACK-ROLES) each callback is called with values of the declared roles (element / accumulator / key-value pair), inferred in the Lua body from the declared parameter types; (INDEX-BOUNDS) index guards evaluated at both ends of the valid range.'
+    ' (INDEX-BOUNDS guard-excludes-invalid) a guarded write lets no invalid index through; (KEY-NORM injective) the key normaliser is injective on tuple keys (known finding).'
 )
 UNDECIDED = "model equivalence over operation histories, the semantics of map/filter/fold callbacks, iteration order of pairs()."
 
@@ -84,6 +85,7 @@ def run(F, rep, tier):
     callback_roles(rep, lua, mods)
     aliases(rep, mods)
     key_norm(rep, lua)
+    key_injective(rep, lua)
     constructors(rep, lua)
     maybe_shape(F, rep, lua)
     index_base(rep, lua)
@@ -242,6 +244,49 @@ def key_norm(rep, lua):
                            name, container, form, major, len(norms[major]),
                            "" if form == major else ": an entry stored under the normalised key is never found (e.g. remove after update with a non-string key)"),
                        "sylt-compiler/src/preamble.lua:%s" % line)
+
+
+def key_injective(rep, lua):
+    """dict and set store entries under `tostring(key)`.  Two different keys of an allowed key type must not normalise to
+    the same string.  For tuples tostring is __TUPLE_META.__tostring: it has to delimit its elements unambiguously -
+    joining `tostring(a[x])` with ", " does not when an element is a string that contains ", "."""
+    ast = luaparse.parse(lua.src) if hasattr(lua, "src") else None
+    f = None
+    for st in luaparse.walk(lua.ast if hasattr(lua, "ast") else ast):
+        if isinstance(st, dict) and st.get("k") == "Assign" and len(st.get("targets", [])) == 1:
+            t = st["targets"][0]
+            if t.get("k") == "Index" and luaparse.show(t) == "__TUPLE_META.__tostring" and st["es"][0].get("k") == "Function":
+                f = st["es"][0]
+    uses_tostring = any("tostring(K)" in form for fam in ("dict_", "set_") for form in _key_forms(lua, fam))
+    if f is None or not uses_tostring:
+        rep.anchor_missing("__TUPLE_META.__tostring / tostring(key) normalisation")
+        return
+    raw_elem = False
+    quoted = False
+    for c in luaparse.walk(f["body"]):
+        if c.get("k") == "Call" and c["f"].get("k") == "Name" and c["f"]["name"] == "tostring":
+            raw_elem = True
+        if c.get("k") == "Call" and luaparse.show(c["f"]) in ("string.format", "__KEY") :
+            quoted = True
+    rep.ob("KEY-NORM", "tuple-keys|injective", (not raw_elem) or quoted,
+           "tuple keys are normalised with an unambiguous encoding of their elements" if (not raw_elem) or quoted else
+           "dict and set normalise a key with tostring(), and __TUPLE_META.__tostring joins the raw tostring of the elements with "
+           "\", \": the tuples (\"a, b\", \"c\") and (\"a\", \"b, c\") are one key (set.add then set.contains of the other "
+           "is true; dict.update of one overwrites the other). Numbers collide as well on Lua 5.1 (tostring uses %.14g).",
+           "sylt-compiler/src/preamble.lua:%s" % f.get("line"))
+
+
+def _key_forms(lua, fam):
+    forms = set()
+    for name, f in _family(lua, fam).items():
+        if len(f["params"]) < 2:
+            continue
+        cont, key = f["params"][0], f["params"][1]
+        for x in luaparse.walk(f["body"]):
+            if x.get("k") == "Index" and not x.get("dot") and x["obj"].get("k") == "Name" and x["obj"]["name"] == cont:
+                if any(y.get("k") == "Name" and y.get("name") == key for y in luaparse.walk(x["key"])):
+                    forms.add(luaparse.show(x["key"]).replace(key, "K"))
+    return forms
 
 
 def constructors(rep, lua):
